@@ -373,6 +373,22 @@ impl<'a> Enc<'a> {
 
     pub(super) fn stack_map_table(&mut self, m: &Method, c: &Code, off: &[usize]) -> Result<(), String> {
         let l = self.layout;
+        if l.frames == FrameEnc::Cldc {
+            self.w.u16(K::Count, "number_of_entries", fit16(c.frames.len(), "number_of_entries")?);
+            for (i, f) in c.frames.iter().enumerate().rev() {
+                let t = self.w.enter_i("frame", i);
+                if f.at >= off.len() - 1 {
+                    return Err("frame: instruction index out of range".into());
+                }
+                self.w.u16(K::CodeOffset, "offset", fit16(off[f.at], "offset")?);
+                self.w.u16(K::Count, "number_of_locals", fit16(f.locals.len(), "number_of_locals")?);
+                self.vtypes("local", &f.locals, off)?;
+                self.w.u16(K::Count, "number_of_stack_items", fit16(f.stack.len(), "number_of_stack_items")?);
+                self.vtypes("stack", &f.stack, off)?;
+                self.w.leave(t);
+            }
+            return Ok(());
+        }
         let mut prev_locals = initial_locals(&self.sem.this_class, m.access, &m.name, &m.desc).unwrap_or_default();
         let mut prev_off: Option<usize> = None;
         self.w.u16(K::Count, "number_of_entries", fit16(c.frames.len(), "number_of_entries")?);
@@ -406,6 +422,7 @@ impl<'a> Enc<'a> {
                 FrameEnc::Compact => 0,
                 FrameEnc::Full => encs.len() - 1,
                 FrameEnc::Mixed => self.rng.below(encs.len() as u64) as usize,
+                FrameEnc::Cldc => unreachable!(),
             };
             let ext = roll(&mut self.rng, l.p_frame_extended);
             match &encs[pick] {
